@@ -57,6 +57,7 @@ type Super struct {
 	unitsOK int
 	unitsAb []string
 	start   time.Time
+	runTag  string
 	mechCov map[string]float64
 	covNote string
 }
@@ -515,7 +516,10 @@ func (s *Super) writeReplay(v *Viol) string {
 // RunSuper runs a whole check and returns the process exit code.
 func RunSuper(o SuperOpts, out io.Writer) int {
 	s := &Super{o: o, NT: map[uint64]struct{}{}, ObsMap: map[string]int64{}, viols: map[string]*Viol{}, start: time.Now()}
-	s.RunDir = filepath.Join(o.VerifDir, ".run", o.Prop.ID)
+	// VERIF_RUN_TAG separates the scratch directory (and keeps the committed evidence file untouched) for runs
+	// against scratch copies of the library (self-tests, seeded changes) that may overlap with a real run.
+	s.runTag = os.Getenv("VERIF_RUN_TAG")
+	s.RunDir = filepath.Join(o.VerifDir, ".run", o.Prop.ID+s.runTag)
 	os.RemoveAll(s.RunDir)
 	os.MkdirAll(filepath.Join(s.RunDir, "cov"), 0o755)
 	if err := os.MkdirAll(s.RunDir, 0o755); err != nil {
@@ -710,6 +714,9 @@ func (s *Super) writeEvidence(nViol int, nt int64, knownHit []string) {
 	}
 	b, _ := json.MarshalIndent(ev, "", " ")
 	dir := filepath.Join(o.VerifDir, "evidence")
+	if s.runTag != "" {
+		dir = s.RunDir
+	}
 	os.MkdirAll(dir, 0o755)
 	os.WriteFile(filepath.Join(dir, o.Prop.ID+".json"), append(b, '\n'), 0o644)
 }
